@@ -185,6 +185,7 @@ def run(tier):
     c02.length_gates(chk)
     from .. import engio, oblig as _ob
     _ob.run_obligations(chk, engio.bounds_obligations())
+    engio.offered_regions(chk)
     no_resume_after_fail(chk)
     from .. import bufcopy
     bufcopy.check(chk)
